@@ -76,7 +76,7 @@ func runC04(c *core.Ctx) {
 			}
 			c.Probe("max-length-extension")
 		}
-		pkt, ok := spec.build(c)
+		pkt, ok := spec.buildx(c, t.Chance(1, 3)) // zero-length values handed over as nil slices in a third of the packets
 		if !ok {
 			c.Violate("setup", "C04/setup/set-extension-rejected-well-formed", "SetExtension rejected a well-formed element of %s", spec)
 			return
